@@ -42,8 +42,17 @@ StructFields == [st1  |-> <<[n |-> "f", lts |-> {"p"}]>>,
                  st2  |-> <<[n |-> "f", lts |-> {"p"}], [n |-> "g", lts |-> {"q"}]>>,
                  st2b |-> <<[n |-> "f", lts |-> {"p"}], [n |-> "g", lts |-> {"q"}]>>,
                  nst2 |-> <<[n |-> "a", lts |-> {"p"}], [n |-> "b", lts |-> {"q"}]>>,
-                 stv  |-> <<[n |-> "f", lts |-> {"p", "q"}], [n |-> "s", lts |-> {"q"}]>>]
+                 stv  |-> <<[n |-> "f", lts |-> {"p", "q"}], [n |-> "s", lts |-> {"q"}]>>,
+                 \* sto: StO<'p,'q> { f: &'p Opq, s: DiplomatSlice<'p,u8>, o: DiplomatOption<DiplomatStrSlice<'q>>,
+                 \*                   w: DiplomatOption<DiplomatSlice<'p,u16>>, n: DiplomatOption<u8> } -- optional fields borrow like plain ones
+                 sto  |-> <<[n |-> "f", lts |-> {"p"}], [n |-> "s", lts |-> {"p"}], [n |-> "o", lts |-> {"q"}], [n |-> "w", lts |-> {"p"}],
+                            [n |-> "n", lts |-> {}]>>]
 FieldsFor(k, l) == {StructFields[k][i].n : i \in {j \in 1..Len(StructFields[k]) : l \in StructFields[k][j].lts}}
+\* fields that are BUFFERS the binding has to copy into native memory (slices, strings, optional or not): the copy made for a field
+\* whose type mentions lifetime l must live in memory that is released only when everything borrowing for l is gone -- never in the
+\* arena that is dropped when the call returns
+BufferFields == [st1 |-> {}, st2 |-> {}, st2b |-> {}, nst2 |-> {}, stv |-> {"s"}, sto |-> {"s", "o", "w"}]
+BuffersFor(k, l) == FieldsFor(k, l) \cap BufferFields[k]
 EdgeKind(k) == IF k = "slice" THEN "slice" ELSE IF IsStruct(k) THEN "struct" ELSE "opaque"
 DefLt(k, i) == IF i = 1 THEN "p" ELSE "q"           \* names of the struct definitions' lifetimes
 \* return kinds:  ropq &'1 Opq | roptopq Option<&'1 Opq> | rslice &'1 str | rbox Box<OpLt<'1>> | rst1 St1<'1>
